@@ -67,11 +67,16 @@ MEMBERS = ("ok.txt", "sub/ok2.txt", "../escape.txt", "../../escape2.txt",
            "", "./", "..", "dir/", "sub/", "ok.txt", "ünï.txt",
            "../recv/existing.txt", "../outside_sentinel.txt", "x/" * 30 + "deep",
            "link", "../existing.txt", "../existingdir/inner.txt",
-           "../../outside_sentinel.txt", "../existingdir/")
+           "../../outside_sentinel.txt", "../existingdir/", "existing.txt",
+           "inner.txt", "keep.txt", "existingdir/inner.txt",
+           "recv/existing.txt")
 
 
 def configs(tier):
-    return [{}]
+    # the second configuration biases towards unpacking a directory offer
+    # where something already exists (existing --output-file directory, names
+    # resolving to existing directories, colliding zip members)
+    return [{}, {"bias": "over_existing"}]
 
 
 def build_zip(tape):
@@ -179,10 +184,18 @@ def _run2(seed, tape, opts, w):
         else None
     put("send/secret.txt", b"sender side")
     os.makedirs(os.path.join(base, "abs"), exist_ok=True)
-    kind = tape.pick(("file", "file", "directory"), "kind")
-    name = tape.pick(BAD_NAMES, "name")
-    out_mode = tape.pick(("unset", "unset", "new", "existing_file",
-                          "existing_dir", "nested_new"), "outmode")
+    if opts.get("bias") == "over_existing":
+        kind = tape.pick(("directory", "directory", "file"), "kind")
+        name = tape.pick(("..", ".", "x/..", "existingdir", "existingdir/",
+                          "inner.txt", "existing.txt", "evil/", "sub/.",
+                          "") + BAD_NAMES[:8], "name")
+        out_mode = tape.pick(("existing_dir", "existing_dir", "unset",
+                              "existing_file", "nested_new"), "outmode")
+    else:
+        kind = tape.pick(("file", "file", "directory"), "kind")
+        name = tape.pick(BAD_NAMES, "name")
+        out_mode = tape.pick(("unset", "unset", "new", "existing_file",
+                              "existing_dir", "nested_new"), "outmode")
     accept = tape.choose(2, "accept") == 0
     answer = tape.pick(("y", "", "Y", "n", "yes", "no"), "answer")
     pre = tape.pick(("absent", "absent", "file", "dir"), "pre")
@@ -274,9 +287,20 @@ def _run2(seed, tape, opts, w):
         if b != a:
             changed.append(k)
     for k in sorted(changed):
+        b, a = before.get(k), after.get(k)
+        if allowed(k) and k != rel_dest and b is not None and b[0] != "dir":
+            # beneath the announced destination, but it was there before:
+            # neither named by --output-file nor directly inside the directory
+            # --output-file names (that one file is rel_dest itself)
+            V("C05.existing_file_replaced", "an existing file is replaced only "
+              "when --output-file names it or the existing directory "
+              "containing it",
+              "pre-existing %r was %s by unpacking over the existing "
+              "directory %r" % (k, "removed" if a is None else "replaced",
+                                rel_dest))
+            break
         if allowed(k):
             continue
-        b, a = before.get(k), after.get(k)
         what = "created" if b is None else ("removed" if a is None else
                                             "modified")
         if k == rel_tmp and tmp_preexisted:
@@ -290,6 +314,18 @@ def _run2(seed, tape, opts, w):
               "destination it announced (and, for directories, beneath it)",
               "%r was %s; announced destination %r" % (k, what, rel_dest))
         break
+    if not viol and changed and bn in ("", ".", "..") and (
+            output_file is None or os.path.isdir(
+                os.path.abspath(os.path.join(cwd, output_file)))
+            and os.path.join(cwd, output_file) != dest):
+        # the destination is derived from the offer's basename, and that
+        # basename names no child at all: nothing may be written
+        V("C05.degenerate_name_written", "the destination is a child of the "
+          "working directory (or the --output-file target) named by the "
+          "offer's basename",
+          "offer basename %r resolves to %r, which is not a child of the "
+          "target directory, yet %r changed" % (bn, rel_dest,
+                                                sorted(changed)[:4]))
     for d in before_dirs:
         if d not in after or after[d][0] != "dir":
             V("C05.directory_deleted", "an existing directory is never "
